@@ -152,7 +152,7 @@ def mut_cases(draw, tier="quick"):
         muts = [(draw(st.integers(0, 10 ** 6)), draw(st.sampled_from(["plus1", "minus1", "half", "bit", "bit", "one", "x256", "other", "zero", "max"])),
                  draw(st.integers(0, 31)))]
         loop = None
-        return dict(base=base, muts=muts, loop=None, focus=True, tool=draw(st.sampled_from(["cat", "cat", "cat", "unpack", "sqfs2tar", "diff"])), path=b"/")
+        return dict(base=base, muts=muts, loop=None, focus=True, tool=draw(st.sampled_from(["cat", "cat", "cat", "unpack", "sqfs2tar", "sqfs2tar", "diff", "stat", "describe"])), path=b"/")
     tool = draw(st.sampled_from(["list", "describe", "stat", "xattr", "cat", "unpack", "sqfs2tar", "sqfs2tar_nohl", "diff"]))
     return dict(base=base, muts=muts, loop=loop, tool=tool, path=draw(st.sampled_from([b"/", b"/sub", b"/big", b"/sub/lnk", b"/f03", b"/sparse", b"/sub/hl", b"/empty", b"/smallblk", b"/smallblk"])))
 
@@ -197,7 +197,7 @@ def build_mutated(case):
         applied.append(("sb.flags", cur, new_))
     # a quarter of the mutations aim at the fields that describe where and how long data is (block words, sizes, fragment locations)
     hot = [f for f in fields if any(k in f[0] for k in ("blk", "size", "frag", "start"))] or fields
-    filef = [f for f in fields if ".file." in f[0] and not f[0].endswith((".nlink", ".xattr"))] or fields
+    filef = [f for f in fields if (".file." in f[0] or ".slink." in f[0]) and not f[0].endswith((".nlink", ".xattr"))] or fields
     for sel, how, bit in case["muts"]:
         if case.get("focus"):
             name, off, w = filef[sel % len(filef)]
